@@ -70,12 +70,14 @@ pub struct Cases<W: Write> {
     pub samples: Vec<String>,
     /// hashes of the distinct cases that are non-trivial by the scenario's rule
     pub nontrivial: HashSet<u64>,
+    /// the property the current scenario serves (selects the predicates the driver evaluates)
+    pub prop: String,
     cur: String,
 }
 
 impl<W: Write> Cases<W> {
     pub fn new(out: W) -> Self {
-        Cases { out, count: 0, stats: BTreeMap::new(), samples: Vec::new(), nontrivial: HashSet::new(), cur: String::new() }
+        Cases { out, count: 0, stats: BTreeMap::new(), samples: Vec::new(), nontrivial: HashSet::new(), prop: String::new(), cur: String::new() }
     }
     pub fn begin(&mut self, kind: &str) -> u64 {
         self.count += 1;
